@@ -149,14 +149,21 @@ CLAIMS = {
               "(config_value_roundtrip, get_after_snapshot_load, publish/update/import_snapshotable; temporary values as a "
               "visible caveat) and for the namespace component on RNacos/Model/Namespace.lean (namespace_component_roundtrip: the "
               "user-created namespaces served after a start from a snapshot are those of the node that wrote it, in use or not; "
-              "that model is executed by the driver against the namespace list the never-stopped node serves), and is a "
-              "hypothesis for the other five components, checked by the correspondence: node R is "
+              "that model is executed by the driver against the namespace list the never-stopped node serves), for the replicated "
+              "sequences on RNacos/Model/Components.lean (sequence_component_roundtrip, sequence_next_after_restart: id_to_bin / "
+              "bin_to_id byte by byte, any map order, the next id handed out after a restart is the one the stopped node would "
+              "have handed out; the SEQ_CONFIG branch of load_snapshot as a visible caveat) and for the user and cache tables "
+              "(table_component_roundtrip, tables_ok_reachable; trees other than T_USER / T_CACHE are dropped on load: visible "
+              "caveat) - both models are executed by the driver and must predict the ids the never-stopped node answers and "
+              "its T_SEQUENCE / T_USER / T_CACHE snapshot records byte for byte - and is a "
+              "hypothesis for the other three components (persistent instances, MCP, direct cache), checked by the correspondence: node R is "
               "compacted, restarted, killed, compacted-and-interrupted at arbitrary points and must dump the same served "
               "state as node L that never stops (component snapshot records, served configurations, served user namespaces, "
               "history ids drawn by the node itself). Found and fixed this way: F22 (stale tail of an interrupted snapshot "
               "resurrects deleted items)."),
-        note=("trusted: as C07; partial by construction: only the configuration and namespace components' encoders are modelled; the other "
-              "components are compared through their own snapshot encoding and the configuration queries; normType "
+        note=("trusted: as C07; partial by construction: the configuration, namespace, sequence and table components' encoders are modelled; the other "
+              "three are compared through their own snapshot encoding and the configuration queries; the tables' own id sequences "
+              "(TableInfo.seq, used by no request path) are not part of a snapshot; normType "
               "idempotence is a hypothesis (core String functions do not reduce in the kernel); the race between a snapshot "
               "build and concurrent applies is not reproduced; 1 open finding F23"),
         technique="Lean 4 theorem (composition + configuration round trip) + translator tables + differential correspondence across real nodes with restarts"),
